@@ -1,1 +1,438 @@
 // Kani harnesses compiled inside rs-matter/src/fabric.rs (module `verif_kani`).
+
+// Property C05 (fabric level): `Fabric::allow` is "some entry of this fabric allows",
+// `Fabrics::allow` is "PASE, or the accessor's own fabric exists and allows".
+// Both are verified against the *contract* of their callee (`AclEntry::allow` resp. `Fabric::allow`):
+// the callee is replaced by a function whose verdict for each element is an arbitrary boolean
+// chosen by the harness, so the result holds whatever the entry-level decision is (it is pinned to
+// the reference predicate by the harnesses in acl.rs). `Fabric` values are built from fields with
+// empty certificates; only fabric index, list lengths and the verdicts are symbolic.
+mod c05 {
+    use super::*;
+    use crate::acl::{Accessor, AccessorSubjects, MAX_ACL_ENTRIES_PER_FABRIC};
+    use crate::dm::devices::test::{TEST_DEV_ATT, TEST_DEV_COMM, TEST_DEV_DET};
+    use crate::dm::Access;
+    use crate::im::GenericPath;
+    use crate::Matter;
+
+    const MATTER: Matter<'static> = Matter::new(&TEST_DEV_DET, TEST_DEV_COMM, &TEST_DEV_ATT, 0);
+
+    const NE: usize = MAX_ACL_ENTRIES_PER_FABRIC;
+    const NF: usize = MAX_FABRICS;
+
+    // ---- ghost state shared between a harness and the contract stand-in of its callee
+    static mut REQ: *const u8 = core::ptr::null();
+    static mut AUX: bool = false;
+
+    static mut ENTRY_BASE: *const AclEntry = core::ptr::null();
+    static mut ENTRY_VERDICT: [bool; NE] = [false; NE];
+    static mut ENTRY_ASKED: [bool; NE] = [false; NE];
+
+    static mut FABRIC_BASE: *const Fabric = core::ptr::null();
+    static mut FABRIC_VERDICT: [bool; NF] = [false; NF];
+    static mut FABRIC_ASKED: [bool; NF] = [false; NF];
+
+    /// Stand-in for `AclEntry::allow` (contract: a function of entry, request and flag; proved equal to
+    /// the reference predicate in acl.rs). Checks that the caller hands the request and the flag
+    /// down unchanged and asks about an entry of the list.
+    fn entry_allow_by_contract(e: &AclEntry, req: &AccessReq, aux_acl_enabled: bool) -> bool {
+        unsafe {
+            kani::assert(core::ptr::eq(req as *const AccessReq as *const u8, REQ), "C05.fabric_allow.request_handed_down");
+            kani::assert(aux_acl_enabled == AUX, "C05.fabric_allow.aux_flag_handed_down");
+            let i = (e as *const AclEntry).offset_from(ENTRY_BASE);
+            kani::assert(i >= 0 && (i as usize) < NE, "C05.fabric_allow.asks_about_list_entries_only");
+            ENTRY_ASKED[i as usize] = true;
+            ENTRY_VERDICT[i as usize]
+        }
+    }
+
+    /// Stand-in for `Fabric::allow`.
+    fn fabric_allow_by_contract(f: &Fabric, req: &AccessReq, aux_acl_enabled: bool) -> bool {
+        unsafe {
+            kani::assert(core::ptr::eq(req as *const AccessReq as *const u8, REQ), "C05.fabrics_allow.request_handed_down");
+            kani::assert(aux_acl_enabled == AUX, "C05.fabrics_allow.aux_flag_handed_down");
+            let i = (f as *const Fabric).offset_from(FABRIC_BASE);
+            kani::assert(i >= 0 && (i as usize) < NF, "C05.fabrics_allow.asks_about_table_fabrics_only");
+            FABRIC_ASKED[i as usize] = true;
+            FABRIC_VERDICT[i as usize]
+        }
+    }
+
+    /// A fabric with the given index and `n` access-control entries, everything else empty.
+    fn minimal_fabric(fab_idx: NonZeroU8, n: usize) -> Fabric {
+        let mut acl: Vec<AclEntry, NE> = Vec::new();
+        let mut i = 0;
+        while i < NE {
+            let _ = acl.push(AclEntry::new(Some(fab_idx), Privilege::empty(), AuthMode::Case));
+            i += 1;
+        }
+        unsafe { acl.set_len(n) };
+        Fabric {
+            fab_idx,
+            node_id: 0,
+            fabric_id: 0,
+            vendor_id: 0,
+            compressed_fabric_id: 0,
+            secret_key: crate::crypto::PKC_SECRET_KEY_ZEROED,
+            root_ca: Vec::new(),
+            icac_or_vvsc: Vec::new(),
+            vvsc_set: false,
+            noc: Vec::new(),
+            ipk: KeySet::new(),
+            label: String::new(),
+            acl,
+            #[cfg(feature = "groups")]
+            groups: Skippable::new(Groups::new()),
+            vid_verification_statement: Vec::new(),
+        }
+    }
+
+    fn any_auth() -> Option<AuthMode> {
+        let k: u8 = kani::any();
+        kani::assume(k < 4);
+        match k {
+            0 => Some(AuthMode::Pase),
+            1 => Some(AuthMode::Case),
+            2 => Some(AuthMode::Group),
+            _ => None,
+        }
+    }
+
+    /// `Fabric::allow(req, aux)` == exists i < len . acl[i].allow(req, aux), for every list length
+    /// 0..=capacity and every combination of entry verdicts.
+    // TIER: quick
+    // KIND: complete
+    #[kani::proof]
+    #[kani::unwind(6)]
+    #[kani::stub(crate::acl::AclEntry::allow, entry_allow_by_contract)]
+    fn c05_fabric_allow_is_exists_entry() {
+        let matter = MATTER;
+        let accessor = Accessor::new(kani::any(), kani::any(), AccessorSubjects::new(kani::any()), any_auth(), &matter);
+        let req = AccessReq::new(
+            &accessor,
+            GenericPath::new(Some(kani::any()), Some(kani::any()), Some(kani::any())),
+            if kani::any() { Access::READ } else { Access::WRITE },
+            &[],
+        );
+        let aux: bool = kani::any();
+
+        let n: usize = kani::any();
+        kani::assume(n <= NE);
+        let fabric = minimal_fabric(NonZeroU8::new(1).unwrap(), n);
+        let verdict: [bool; NE] = kani::any();
+        unsafe {
+            REQ = &req as *const AccessReq as *const u8;
+            AUX = aux;
+            ENTRY_BASE = fabric.acl.as_ptr();
+            ENTRY_VERDICT = verdict;
+            ENTRY_ASKED = [false; NE];
+        }
+
+        let r = fabric.allow(&req, aux);
+
+        let mut exists = false;
+        let mut i = 0;
+        while i < NE {
+            if i < n && verdict[i] {
+                exists = true;
+            }
+            i += 1;
+        }
+        kani::assert(r == exists, "C05.fabric_allow.iff_some_entry_allows");
+        kani::assert(!(n == 0) || !r, "C05.fabric_allow.empty_list_denies");
+        let j: usize = kani::any();
+        kani::assume(j < NE);
+        kani::assert(!(unsafe { ENTRY_ASKED[j] }) || j < n, "C05.fabric_allow.never_asks_beyond_len");
+        // a denial has looked at every entry
+        kani::assert(r || !(j < n) || unsafe { ENTRY_ASKED[j] }, "C05.fabric_allow.denial_consulted_every_entry");
+
+        kani::cover!(r && n == NE && !verdict[0] && !verdict[1] && !verdict[2], "only the last entry allows");
+        kani::cover!(!r && n == NE, "full list, nobody allows");
+        kani::cover!(!r && n == 0, "empty list");
+        core::mem::forget(fabric);
+    }
+
+    /// `Fabrics::allow`: PASE accessors are always allowed; everybody else exactly when the accessor
+    /// has a fabric, that fabric exists and its list allows. Table of 0..=MAX_FABRICS fabrics with
+    /// pairwise distinct indices (representation invariant kept by `add_with_post_init`).
+    // TIER: quick
+    // KIND: complete
+    #[kani::proof]
+    #[kani::unwind(7)]
+    #[kani::stub(crate::fabric::Fabric::allow, fabric_allow_by_contract)]
+    fn c05_fabrics_allow_dispatch() {
+        let matter = MATTER;
+        let acc_fab: u8 = kani::any();
+        let acc_auth = any_auth();
+        let accessor = Accessor::new(acc_fab, kani::any(), AccessorSubjects::new(kani::any()), acc_auth, &matter);
+        let req = AccessReq::new(
+            &accessor,
+            GenericPath::new(Some(kani::any()), Some(kani::any()), Some(kani::any())),
+            if kani::any() { Access::READ } else { Access::WRITE },
+            &[],
+        );
+        let aux: bool = kani::any();
+
+        let n: usize = kani::any();
+        kani::assume(n <= NF);
+        let idx: [u8; NF] = kani::any();
+        let mut i = 0;
+        while i < NF {
+            kani::assume(idx[i] != 0);
+            let mut k = 0;
+            while k < i {
+                kani::assume(idx[k] != idx[i]);
+                k += 1;
+            }
+            i += 1;
+        }
+        let mut table: Vec<Fabric, NF> = Vec::new();
+        let mut i = 0;
+        while i < NF {
+            let _ = table.push(minimal_fabric(NonZeroU8::new(idx[i]).unwrap(), 0));
+            i += 1;
+        }
+        unsafe { table.set_len(n) };
+        let fabrics = Fabrics { fabrics: table };
+        let verdict: [bool; NF] = kani::any();
+        unsafe {
+            REQ = &req as *const AccessReq as *const u8;
+            AUX = aux;
+            FABRIC_BASE = fabrics.fabrics.as_ptr();
+            FABRIC_VERDICT = verdict;
+            FABRIC_ASKED = [false; NF];
+        }
+
+        let r = fabrics.allow(&req, aux);
+
+        let pase = acc_auth == Some(AuthMode::Pase);
+        let mut own_exists = false;
+        let mut own_allows = false;
+        let mut i = 0;
+        while i < NF {
+            if i < n && acc_fab != 0 && idx[i] == acc_fab {
+                own_exists = true;
+                if verdict[i] {
+                    own_allows = true;
+                }
+            }
+            i += 1;
+        }
+        kani::assert(r == (pase || own_allows), "C05.fabrics_allow.iff_pase_or_own_fabric_allows");
+        kani::assert(!pase || r, "C05.fabrics_allow.pase_always_allowed");
+        kani::assert(!(!pase && acc_fab == 0) || !r, "C05.fabrics_allow.no_fabric_denied");
+        kani::assert(!(!pase && !own_exists) || !r, "C05.fabrics_allow.nonexistent_fabric_denied");
+        let j: usize = kani::any();
+        kani::assume(j < NF);
+        kani::assert(
+            !(unsafe { FABRIC_ASKED[j] }) || (j < n && idx[j] == acc_fab),
+            "C05.fabrics_allow.only_own_fabric_consulted"
+        );
+
+        kani::cover!(r && !pase && n == NF && idx[NF - 1] == acc_fab, "own fabric is the last of a full table");
+        kani::cover!(!r && own_exists, "own fabric exists and denies");
+        kani::cover!(!r && !own_exists && acc_fab != 0 && n == NF, "fabric index not in a full table");
+        kani::cover!(!r && acc_fab == 0 && acc_auth == Some(AuthMode::Case), "no fabric");
+        kani::cover!(r && pase && n == 0, "PASE on an uncommissioned node");
+        core::mem::forget(fabrics);
+    }
+
+    // ------------------------------------------------------------------------------------------
+    // Group membership clause and the top-level `AccessReq::allow` (both need the state inside a
+    // `Matter`): the fabric table is built from fields and moved into the state.
+
+    /// One group-table row of the model: id, up to two member endpoints, auxiliary-ACL flag.
+    #[cfg(feature = "groups")]
+    struct MGroup {
+        gid: u16,
+        eps: [u16; 2],
+        n: usize,
+        aux: bool,
+    }
+
+    #[cfg(feature = "groups")]
+    const NG: usize = 2;
+
+    #[cfg(feature = "groups")]
+    fn any_groups() -> ([MGroup; NG], usize) {
+        let g = [
+            MGroup { gid: kani::any(), eps: kani::any(), n: kani::any(), aux: kani::any() },
+            MGroup { gid: kani::any(), eps: kani::any(), n: kani::any(), aux: kani::any() },
+        ];
+        kani::assume(g[0].n <= 2 && g[1].n <= 2);
+        // representation invariant of the group table: one row per group id
+        kani::assume(g[0].gid != g[1].gid);
+        let ng: usize = kani::any();
+        kani::assume(ng <= NG);
+        (g, ng)
+    }
+
+    /// The group table holding exactly the model rows (built through the table's own API: its
+    /// fields are private to `fabric::groups`).
+    #[cfg(feature = "groups")]
+    fn real_groups(g: &[MGroup; NG], ng: usize) -> Groups {
+        let mut t = Groups::new();
+        let mut k = 0;
+        while k < NG {
+            if k < ng {
+                let _ = t.groupcast_join(g[k].gid, &g[k].eps[..g[k].n], false, None);
+                let _ = t.set_has_aux_acl(g[k].gid, g[k].aux);
+            }
+            k += 1;
+        }
+        t
+    }
+
+    #[cfg(feature = "groups")]
+    fn spec_member(g: &[MGroup; NG], ng: usize, gid: u64, ep: u16, need_aux: bool) -> bool {
+        let mut k = 0;
+        while k < NG {
+            if k < ng && g[k].gid as u64 == gid && (!need_aux || g[k].aux) {
+                let mut m = 0;
+                while m < 2 {
+                    if m < g[k].n && g[k].eps[m] == ep {
+                        return true;
+                    }
+                    m += 1;
+                }
+            }
+            k += 1;
+        }
+        false
+    }
+
+    /// A table of `nf <= 1` fabrics: the fabric with index `idx` carrying `groups`.
+    #[cfg(feature = "groups")]
+    fn one_fabric(idx: u8, nf: usize, groups: Groups) -> Fabrics {
+        let mut table: Vec<Fabric, NF> = Vec::new();
+        let mut f0 = minimal_fabric(NonZeroU8::new(idx).unwrap(), 0);
+        f0.groups = Skippable::new(groups);
+        let _ = table.push(f0);
+        unsafe { table.set_len(nf) };
+        Fabrics { fabrics: table }
+    }
+
+    /// `Accessor::is_endpoint_accessible`: group accessors reach only endpoints that are members of
+    /// their group in their own, existing fabric; everybody else reaches every endpoint.
+    // TIER: thorough
+    // KIND: bounded (<= 1 fabric in the table, <= 2 groups with <= 2 member endpoints each; capacities are 5 / 12 / 3)
+    #[cfg(feature = "groups")]
+    #[kani::proof]
+    #[kani::unwind(7)]
+    fn c05_group_accessor_endpoint_membership() {
+        let matter = MATTER;
+        let (g, ng) = any_groups();
+        let idx: u8 = kani::any();
+        kani::assume(idx != 0);
+        let nf: usize = kani::any();
+        kani::assume(nf <= 1);
+        let fabrics = one_fabric(idx, nf, real_groups(&g, ng));
+        matter.with_state(|s| s.fabrics = fabrics);
+
+        let acc_fab: u8 = kani::any();
+        let auth = any_auth();
+        let sub0: u64 = kani::any();
+        // a group accessor's first identity is its 16-bit group id (`Accessor::for_session`)
+        kani::assume(auth != Some(AuthMode::Group) || sub0 <= 0xffff);
+        let accessor = Accessor::new(acc_fab, kani::any(), AccessorSubjects::new(sub0), auth, &matter);
+        let ep: u16 = kani::any();
+
+        let r = accessor.is_endpoint_accessible(ep);
+
+        let own_has_groups = nf == 1 && acc_fab != 0 && idx == acc_fab;
+        let spec = auth != Some(AuthMode::Group) || (own_has_groups && spec_member(&g, ng, sub0, ep, false));
+        kani::assert(r == spec, "C05.group.endpoint_reachable_iff_not_group_or_member_of_own_group");
+        kani::assert(!(auth == Some(AuthMode::Group) && acc_fab == 0) || !r, "C05.group.group_accessor_without_fabric_reaches_nothing");
+        kani::assert(
+            !(auth == Some(AuthMode::Group) && !(nf == 1 && idx == acc_fab)) || !r,
+            "C05.group.group_accessor_of_missing_fabric_reaches_nothing"
+        );
+
+        kani::cover!(r && auth == Some(AuthMode::Group) && ng == 2 && g[1].gid as u64 == sub0 && g[1].n == 2 && g[1].eps[1] == ep, "member: second group, second endpoint");
+        kani::cover!(!r && own_has_groups && ng == 2 && (g[0].gid as u64 == sub0 || g[1].gid as u64 == sub0), "group known, endpoint not a member");
+        kani::cover!(!r && own_has_groups && ng == 2 && g[0].gid as u64 != sub0 && g[1].gid as u64 != sub0, "group unknown in own fabric");
+        kani::cover!(!r && nf == 1 && acc_fab != 0 && acc_fab != idx && spec_member(&g, ng, sub0, ep, false), "member in another fabric only");
+        kani::cover!(r && auth == Some(AuthMode::Case), "not a group accessor");
+    }
+
+    static mut FS_VERDICT: bool = false;
+    static mut FS_CALLS: u8 = 0;
+    static mut FS_SEEN_REQ: *const u8 = core::ptr::null();
+    static mut FS_SEEN_AUX: bool = false;
+
+    /// Stand-in for `Fabrics::allow` (contract: C05.fabrics_allow.* above).
+    fn fabrics_allow_by_contract(_fs: &Fabrics, req: &AccessReq, aux_acl_enabled: bool) -> bool {
+        unsafe {
+            if FS_CALLS < 2 {
+                FS_CALLS += 1;
+            }
+            FS_SEEN_REQ = req as *const AccessReq as *const u8;
+            FS_SEEN_AUX = aux_acl_enabled;
+            FS_VERDICT
+        }
+    }
+
+    /// `AccessReq::allow` == `Fabrics::allow(req, accessor.aux_acl_enabled)` or the Groupcast auxiliary
+    /// grant (documented at acl.rs:571 as Matter Core behaviour: a Group accessor whose group has
+    /// auxiliary ACL entries gets Operate on the group's member endpoints when the node has the
+    /// AUXILIARY feature).
+    // TIER: thorough
+    // KIND: bounded (<= 1 fabric in the table, <= 2 groups with <= 2 member endpoints each; capacities are 5 / 12 / 3)
+    #[cfg(feature = "groups")]
+    #[kani::proof]
+    #[kani::unwind(7)]
+    #[kani::stub(crate::fabric::Fabrics::allow, fabrics_allow_by_contract)]
+    fn c05_access_req_allow() {
+        let matter = MATTER;
+        let (g, ng) = any_groups();
+        let idx: u8 = kani::any();
+        kani::assume(idx != 0);
+        let nf: usize = kani::any();
+        kani::assume(nf <= 1);
+        let fabrics = one_fabric(idx, nf, real_groups(&g, ng));
+        matter.with_state(|s| s.fabrics = fabrics);
+
+        let acc_fab: u8 = kani::any();
+        let acc_aux: bool = kani::any();
+        let auth = any_auth();
+        let sub0: u64 = kani::any();
+        kani::assume(auth != Some(AuthMode::Group) || sub0 <= 0xffff);
+        let accessor = Accessor::new(acc_fab, acc_aux, AccessorSubjects::new(sub0), auth, &matter);
+        let ep: Option<u16> = if kani::any() { Some(kani::any()) } else { None };
+        let op = if kani::any() { Access::READ } else { Access::WRITE };
+        let mut req = AccessReq::new(&accessor, GenericPath::new(ep, Some(kani::any()), Some(kani::any())), op, &[]);
+        let perms: Option<Access> = if kani::any() { Some(Access::from_bits_retain(kani::any())) } else { None };
+        if let Some(p) = perms {
+            req.set_target_perms(p);
+        }
+        let verdict: bool = kani::any();
+        unsafe {
+            FS_VERDICT = verdict;
+            FS_CALLS = 0;
+        }
+
+        let r = req.allow();
+
+        let own_has_groups = nf == 1 && acc_fab != 0 && idx == acc_fab;
+        let auxiliary = acc_aux
+            && auth == Some(AuthMode::Group)
+            && own_has_groups
+            && sub0 != 0
+            && ep.is_some_and(|e| spec_member(&g, ng, sub0, e, true))
+            && perms.is_some_and(|p| p.is_ok(op, Privilege::OPERATE));
+        kani::assert(r == (verdict || auxiliary), "C05.access_req.allow_iff_fabrics_allow_or_groupcast_auxiliary");
+        kani::assert(unsafe { FS_CALLS } == 1, "C05.access_req.fabrics_consulted_once");
+        kani::assert(
+            unsafe { FS_SEEN_REQ == &req as *const AccessReq as *const u8 && FS_SEEN_AUX == acc_aux },
+            "C05.access_req.fabrics_consulted_about_this_request"
+        );
+        // outside the documented auxiliary grant the fabric table alone decides
+        kani::assert(!(auth != Some(AuthMode::Group) || !acc_aux) || r == verdict, "C05.access_req.no_auxiliary_grant_without_group_and_feature");
+        kani::assert(!(r && !verdict) || perms.is_some_and(|p| p.contains(op)), "C05.access_req.auxiliary_grant_needs_declared_operation");
+
+        kani::cover!(r && !verdict, "auxiliary grant");
+        kani::cover!(!r && acc_aux && auth == Some(AuthMode::Group) && own_has_groups && ep.is_some_and(|e| spec_member(&g, ng, sub0, e, false)), "member, but no auxiliary flag or privilege");
+        kani::cover!(r && verdict && auth == Some(AuthMode::Case), "fabric table allows");
+        kani::cover!(!r, "denied");
+    }
+}
